@@ -159,6 +159,18 @@ def run_system(text, ops_seed, sched_kwargs, n_generators=1, faults=None, props=
             if generable0 != expect_generable:
                 viols.append({"property": "C13", "invariant": "generable_flag",
                               "msg": f"System.generable is {generable0}, the specifiers {'determine' if expect_generable else 'do not determine'} the system", "features": []})
+            # Exact comparisons use the library's own float for the system mass (the model's value can differ in the last bit,
+            # e.g. 500 * 0.24022 vs 120.11, and ties are decided by that bit); the two must agree to 1e-9
+            if expect_generable and generable0:
+                try:
+                    M_lib = float(system.system_mass)
+                    if abs(M_lib - M_sys) > 1e-9 * max(1.0, abs(M_sys)):
+                        viols.append({"property": "C13", "invariant": "system_mass_differs_from_specifiers",
+                                      "msg": f"System.system_mass is {M_lib!r}, the specifiers give {M_sys!r}", "features": []})
+                    else:
+                        M_sys = M_lib
+                except Exception as exc:
+                    viols.append({"property": "C13", "invariant": "system_mass_unavailable", "msg": f"System.system_mass raised {exc!r}", "features": []})
             # tasks ---------------------------------------------------------------
             gens = []
 
@@ -254,6 +266,8 @@ def run_system(text, ops_seed, sched_kwargs, n_generators=1, faults=None, props=
                             if embed_armed and not any(e["k"] == "fault" and e["kind"] == "embed_fail" for e in world.log[-600:]):
                                 stats["fault_not_reached"] = stats.get("fault_not_reached", 0) + 1
                             world.embed_fault_at = None
+                        if "calls_first_resumption" not in stats and gi == 0:
+                            stats["calls_first_resumption"] = sched.calls - calls_before
                 except StopIteration:
                     t["done"] = True
                     world.event({"k": "op", "op": "stop", "g": gi, "mass": t["mass"]})
